@@ -746,7 +746,7 @@ func (ji *JobInfo) DeleteTaskInfo(ti *TaskInfo) {
 		}
 		delete(ji.Tasks, task.UID)
 		ji.deleteTaskIndex(task)
-		ji.deleteTaskFromSubJob(ti)
+		ji.deleteTaskFromSubJob(task)
 		return
 	}
 
